@@ -85,3 +85,19 @@
         #[verifier::external_body]
         fn try_from_node(node: Node<'n, 'n>, doc: &mut RustDocument) -> (res: WriterResult<Self>) { unimplemented!() }
     }
+//# section: simple-callees
+    // callees of SimpleProps::try_from_node that are declared only (list / union types are outside the subset; as_rust_type is unit F)
+    #[verifier::external_body]
+    fn parse_comment<'n>(node: Node<'n, 'n>) -> Option<String> { unimplemented!() }
+    #[verifier::external_body]
+    pub fn collect_namespaces_on_node<'n>(node: Node<'n, 'n>, doc: &mut RustDocument) { unimplemented!() }
+    impl WriterError {
+        #[verifier::external_body]
+        pub fn attribute_missing(node: &Node, attribute: &str) -> Self { unimplemented!() }
+    }
+    #[verifier::external_body]
+    pub fn as_rust_type(node_type: &str, doc: &RustDocument) -> RustFieldType { unimplemented!() }
+    #[verifier::external_body]
+    fn build_simple_list_type<'n>(doc: &mut RustDocument, xml_name: String, list: Node<'n, 'n>, comment: Option<String>) -> WriterResult<SimpleProps> { unimplemented!() }
+    #[verifier::external_body]
+    fn build_simple_union_type<'n>(doc: &mut RustDocument, xml_name: String, list: Node<'n, 'n>, comment: Option<String>) -> WriterResult<SimpleProps> { unimplemented!() }
